@@ -40,10 +40,25 @@ def seed_table():
     return "\n".join(l for l in t if l.startswith("|") or l.startswith("Summary"))
 
 
+def latest_evidence(cid):
+    """One line from the committed evidence file (the figures in the 'Bounds and cost' paragraphs were recorded when
+    each part was written; the workloads have grown since)."""
+    p = f"{V}/evidence/{cid}.json"
+    if not os.path.exists(p):
+        return ""
+    e = json.load(open(p))
+    cov = e.get("coverage", {})
+    ev = cov.get("evaluations", cov.get("cases", "?"))
+    di = cov.get("distinct_nontrivial", cov.get("distinct", "?"))
+    return (f"*Latest committed evidence (`evidence/{cid}.json`, tier {e.get('tier')}, seed {e.get('seed')}).*  "
+            f"{ev} evaluations, {di} distinct, {e.get('violations') if isinstance(e.get('violations'), int) else len(e.get('violations', []))} violations, {e.get('wall_s', '?')} s.\n\n")
+
+
 def main():
     out = open(f"{V}/design_parts/00_head.md").read()
     for i in range(1, 21):
         out += open(f"{V}/design_parts/C{i:02d}.md").read().rstrip() + "\n\n"
+        out += latest_evidence(f"C{i:02d}")
     tail = open(f"{V}/design_parts/90_tail.md").read()
     tail = tail.replace("{FIXED_TABLE}", fixed_table()).replace("{SEED_TABLE}", seed_table())
     out += tail
